@@ -260,7 +260,15 @@ def apply_edit(s: ASchema, db, e, step):
         if any(sig(x) == sig(r) for x in s.refs if x is not r):
             r.kind, r.inline, r.name, r.on_update, r.on_delete = before.kind, before.inline, before.name, before.on_update, before.on_delete
             return None
-        lr.type, lr.inline, lr.name, lr.on_update, lr.on_delete = r.kind, r.inline, r.name, r.on_update, r.on_delete
+        # touch only the attribute this edit is about (re-assigning the others would mask stale state)
+        if kind == 'ref_kind':
+            lr.type = r.kind
+        elif kind == 'ref_inline':
+            lr.inline = r.inline
+        elif kind == 'ref_name':
+            lr.name = r.name
+        else:
+            lr.on_update, lr.on_delete = r.on_update, r.on_delete
         return kind
     if kind == 'group_edit':
         if not s.groups:
@@ -385,7 +393,7 @@ def replay(case):
 def shard(ctx: Ctx):
     quick = ctx.tier == 'quick'
     sizes = gen.Sizes(tables=3, columns=3, indexes=2, enums=2, items=2, refs=5, groups=2, stickies=1, props=1)
-    feats = frozenset(C.parse_features() - {'mixed_layout', 'inline_m2m'})
+    feats = frozenset(C.parse_features() - {'mixed_layout'})
     edit = st.tuples(st.sampled_from(EDITS), st.integers(0, 20), st.integers(0, 20), st.integers(0, 40))
 
     @st.composite
